@@ -28,6 +28,18 @@ def classify(res, scs, reps, mons):
                 res.violations.append(dict(signature='C07/subscribe-after-close-succeeds', what='Subscribe after Close returned a channel', case=case()))
             if e['p'] == 'api.close.ret' and e['k'][1] != 'true':
                 res.violations.append(dict(signature='C07/close-error', what='Close returned an error', case=case()))
+        # "After Close has returned every output channel is closed" - for EVERY Close call that
+        # returns, also one that overlaps a Close in progress: each subscription created before
+        # that return has stamped the close of its output channel before it
+        created, closed_out = {}, {}
+        for e in sc['events']:
+            if e['p'] == 'gochannel.subscribe.created': created.setdefault(e['k'][1], e['seq'])
+            elif e['p'] == 'gochannel.sub.close.closing_output': closed_out.setdefault(e['k'][0], e['seq'])
+            elif e['p'] == 'api.close.ret':
+                open_ = [u for u, sq in created.items() if sq < e['seq'] and not (u in closed_out and closed_out[u] < e['seq'])]
+                if open_:
+                    res.violations.append(dict(signature='C07/close-returned-with-open-output-channel', what='Close call %s returned while the output channel of %d subscription(s) was still open' % (e['k'][0], len(open_)), case=case()))
+                    break
         # "cancelling one subscription leaves the others working": the delivery acceptor on the
         # subscriptions that were NOT cancelled, in scenarios where some subscription was
         cancelled = any(t.startswith('ACancel') for t, _ in mo['hist'])
